@@ -34,6 +34,13 @@ def rational(v) -> sp.Expr:
     raise AnalysisError(f"cannot translate constant {v!r}")
 
 
+def as_bool(v):
+    """Truth value of a non-boolean term as a Boolean atom (so that it can sit under And/Or/Not)."""
+    if isinstance(v, sp.logic.boolalg.Boolean) or v in (sp.true, sp.false):
+        return v
+    return sp.Eq(sp.Function("truth")(v), sp.true, evaluate=False)
+
+
 class Translator:
     """Translate expressions with an environment of already-known names."""
 
@@ -118,7 +125,7 @@ class Translator:
         if isinstance(n.op, ast.UAdd):
             return v
         if isinstance(n.op, ast.Not):
-            return sp.Not(v) if isinstance(v, sp.logic.boolalg.Boolean) else sp.Function("not_")(v)
+            return sp.Not(as_bool(v))
         if isinstance(n.op, ast.Invert):
             return sp.Function("invert")(v)
         raise AnalysisError(f"unary operator not translatable: `{unparse(n)}`")
@@ -172,10 +179,14 @@ class Translator:
             return sp.Eq(a, b, evaluate=False)
         if isinstance(op, (ast.NotEq, ast.IsNot)):
             return sp.Ne(a, b, evaluate=False)
+        if isinstance(op, ast.In):
+            return sp.Eq(sp.Function("in_")(a, b), sp.true, evaluate=False)
+        if isinstance(op, ast.NotIn):
+            return sp.Ne(sp.Function("in_")(a, b), sp.true, evaluate=False)
         raise AnalysisError(f"comparison not translatable: `{unparse(n)}`")
 
     def t_BoolOp(self, n):
-        vals = [self.tr(v) for v in n.values]
+        vals = [as_bool(self.tr(v)) for v in n.values]
         return sp.And(*vals) if isinstance(n.op, ast.And) else sp.Or(*vals)
 
     def t_IfExp(self, n):
